@@ -95,7 +95,7 @@ class Lexical(Suite):
     go_cmd = "c26"
     coq_imports = "From GoGit Require Import Model.WorktreePaths."
     quick_n = 700
-    thorough_n = 12000
+    thorough_n = 6000
 
     def gen(self, rng, n, tier):
         cases = []
@@ -190,7 +190,7 @@ class WFS(Suite):
     name = "wfs"
     go_cmd = "c26"
     quick_n = 120
-    thorough_n = 1500
+    thorough_n = 800
 
     def gen(self, rng, n, tier):
         cases = []
@@ -259,7 +259,7 @@ class Checkout(Suite):
     name = "checkout"
     go_cmd = "c26"
     quick_n = 110
-    thorough_n = 1500
+    thorough_n = 800
 
     def hostile_tree(self, rng):
         ents = [f("ok"), d("dir", [f("inner")])]
